@@ -69,13 +69,13 @@ PROPS = {
     "C03": P(workloads="mq-conc steady, view, remove-stream, wrap-slow-clone, add-stream-sole, no-receiver (every receiver leaving at once while producers keep sending) with slow consumers and stalls in the writer's scan; quiescent fill counts; Miri slice"),
     "C04": P(workloads="mq-conc wrap-slow-clone, view, steady and handle-churn (clones used by a helper thread and dropped while the original keeps receiving) with stalls inside clone / view closure; AddressSanitizer shards; Miri with the data-race detector (broadcast, mpmc single consumer)"),
     "C05": P(q=100, workloads="mq-seq with every teardown permutation, mq-conc teardown-orders / no-receiver / steady, AddressSanitizer shards, Miri with leak checking; one shard exercises the open finding (two streams on a move-out queue)"),
-    "C06": P(workloads="quiescent probe after every mq-conc family; dedicated quiesce family"),
+    "C06": P(workloads="quiescent probe after every mq-conc family; dedicated quiesce family; mq-tight handle-count (handle counts after concurrent clone/drop storms, read back through Full/Empty/Disconnected at quiescence)"),
     "C07": P(workloads="mq-conc last-sender (drops racing receives on shared and separate streams, blocking and non-blocking entry points); mq-wake end phase (consumers blocked when all senders are dropped at the same instant)"),
     "C08": P(q=50, workloads="mq-wake: consumers blocked in recv / recv_view / blocking iterators under Busy / Yielding / Blocking strategies with default and zero spins; Miri slice (deadlock detector)"),
     "C09": P(q=200, t=2000, assumptions=SEQ_ASSUME, workloads="mq-seq random sequences of 300 calls over all eight handle families + exhaustive enumeration of a 14-command alphabet; Miri slice for UB on sequential paths"),
     "C10": P(workloads="mq-conc add-stream-sole and add-stream-shared (one or two adders, rendezvous stalls between snapshot / publication and the writers' scan), mq-fut scenarios in which a polled receiver adds a stream and drops the parent"),
-    "C11": P(workloads="mq-conc remove-stream (producers refused against a slow stream that is then removed, optionally racing an add_stream on another stream), no-receiver with simultaneous unsubscribes, mq-seq unsubscribe results, mq-fut scenarios in which a receiver leaves while a sink is parked, mq-tight last-receiver"),
-    "C12": P(workloads="mq-conc handle-churn: senders 1->2->1, consumers of a stream 1->2->1 via clone/drop/unsubscribe/into_single/into_multi during traffic"),
+    "C11": P(workloads="mq-conc remove-stream (producers refused against a slow stream that is then removed, optionally racing an add_stream on another stream), no-receiver with simultaneous unsubscribes, mq-seq unsubscribe results, mq-fut scenarios in which a receiver leaves while a sink is parked, mq-tight last-receiver and handle-count (which unsubscribe() says last after concurrent clone/drop)"),
+    "C12": P(workloads="mq-conc handle-churn: senders 1->2->1, consumers of a stream 1->2->1 via clone/drop/unsubscribe/into_single/into_multi during traffic; mq-tight handle-count (two threads clone/drop handles of one stream / one queue at the same time); mq-wake scenarios with a sender clone dropped mid-run and consumers of a shared stream leaving"),
     "C13": P(q=50, workloads="mq-seq (every order of dropping receivers, all sender flavours), mq-conc no-receiver (last receiver leaves while producers send), mq-fut (sink parked while the last receiver is dropped), mq-tight last-receiver (the last receiver leaves while another thread runs reclamation cycles; ~50k trials/s)"),
     "C14": P(q=50, workloads="mq-fut: sink and stream tasks polled only when notified, receivers draining through poll / direct methods / being dropped, probe-poll at quiescence"),
     "C15": P(q=100, assumptions=COMMON + SEQ_ASSUME, workloads="mq-seq futures configurations (start_send/poll mixed with direct methods, fresh empty queues), mq-fut, mq-conc futures variants; own-step bound on poll/start_send"),
@@ -132,7 +132,9 @@ def jobs_for(prop, tier, seed):
         J.append(miri(prop, seed, "seq", ["seq", "--runs", "2", "--len", "40", "--perm-every", "0"], ms, mt, {"*": "C05,C09", "miri-leak": "C05,C17"}, leaks=True, base=17))
     elif prop == "C06":
         J += conc(prop, seed, ["quiesce", "quiesce", "steady", "remove-stream", "handle-churn", "add-stream-sole",
-                               "last-sender", "view", "wrap-slow-clone"], n, s)
+                               "last-sender", "view", "wrap-slow-clone"], n - 2, s)
+        # handle counts read back through behaviour at quiescence (spurious Full / Empty that persists)
+        J += shard_jobs(prop, seed, ["tight", "--mode", "handle-count"], 2, s, "handle-count", base=90)
     elif prop == "C07":
         J += conc(prop, seed, ["last-sender"], n - 3, s)
         # "recv gives Err / iterators stop" for consumers that are *blocked* when the last sender goes
@@ -150,12 +152,15 @@ def jobs_for(prop, tier, seed):
         J += conc(prop, seed, ["add-stream-shared"], n - n // 2 - 2, s, label="shared", base=40)
         J += shard_jobs(prop, seed, ["fut"], 2, s, "fut", base=60)
     elif prop == "C11":
-        J += conc(prop, seed, ["remove-stream", "remove-stream", "no-receiver"], n - 5, s)
+        J += conc(prop, seed, ["remove-stream", "remove-stream", "no-receiver"], n - 6, s)
         J += shard_jobs(prop, seed, ["seq", "--cfgs", "broadcast"], 2, s, "seq", base=100)
         J += shard_jobs(prop, seed, ["fut"], 2, s, "fut", base=60)
         J += shard_jobs(prop, seed, ["tight", "--mode", "last-receiver"], 1, s, "last-receiver", base=90)
+        J += shard_jobs(prop, seed, ["tight", "--mode", "handle-count"], 1, s, "handle-count", base=92)
     elif prop == "C12":
-        J += conc(prop, seed, ["handle-churn"], n - 4, s)
+        J += conc(prop, seed, ["handle-churn"], n - 8, s)
+        J += shard_jobs(prop, seed, ["tight", "--mode", "handle-count"], 2, s, "handle-count", base=90)
+        J += shard_jobs(prop, seed, ["wake"], 2, s, "wake", base=95)
         # long free-running executions: windows that contain no hook site are only reachable through
         # natural pre-emption on the (deliberately oversubscribed) machine
         J += conc(prop, seed, ["handle-churn"], 4, s, label="long", base=80, extra=[["--long"]])
